@@ -28,6 +28,11 @@ def scale_table(seed):
       'si': scales.Scale(1 * u.m, 1 * u.s, 1 * u.kg, 1 * u.degK),
       'odd': scales.Scale(scales.RADIUS / 37, 5.3 / (2 * scales.OMEGA), 16.4 * u.kg, 3.15 * u.degK),
       'seeded': scales.Scale(scales.RADIUS * dec(), dec() / (2 * scales.OMEGA), dec() * u.kg, dec() * u.degK),
+      # the default scale with ONE base unit changed (a stale value keyed on the other three, or on the grid alone, only shows here)
+      'default_time_only': scales.Scale(scales.RADIUS, 7.3 / (2 * scales.OMEGA), 1 * u.kg, 1 * u.degK),
+      'default_length_only': scales.Scale(scales.RADIUS * 0.31, 1 / (2 * scales.OMEGA), 1 * u.kg, 1 * u.degK),
+      'default_mass_only': scales.Scale(scales.RADIUS, 1 / (2 * scales.OMEGA), 250.0 * u.kg, 1 * u.degK),
+      'default_temperature_only': scales.Scale(scales.RADIUS, 1 / (2 * scales.OMEGA), 1 * u.kg, 41.0 * u.degK),
   }
 
 
@@ -226,6 +231,10 @@ def make_tasks(tier, seed):
   add(cfgf, 'dy2', 'dry', 'atmospheric', 'seeded')
   add(cfg, 'dy2', 'moist', 'default', 'odd')
   add(cfg, 'dy2', 'moist', 'si', 'seeded')
+  for one in ('time', 'length', 'mass', 'temperature'):
+    add(cfg, 'dy2', 'moist' if one in ('mass', 'temperature') else 'dry', 'default', f'default_{one}_only')
+  tasks.append(dict(name='held-suarez-default-time-only', fn='task_held_suarez', kw=dict(cfg=cfg, levels=LS['dy2'].tolist(), lname='dy2', sa='default', sb='default_time_only', seed=seed)))
+  tasks.append(dict(name='sw-default-time-only', fn='task_sw', kw=dict(cfg=cfg, sa='default', sb='default_time_only', seed=seed)))
   tasks.append(dict(name='held-suarez-default-odd', fn='task_held_suarez', kw=dict(cfg=cfg, levels=LS['dy3'].tolist(), lname='dy3', sa='default', sb='odd', seed=seed)))
   tasks.append(dict(name='held-suarez-si-seeded', fn='task_held_suarez', kw=dict(cfg=cfg, levels=LS['dy2'].tolist(), lname='dy2', sa='si', sb='seeded', seed=seed)))
   for sa, sb in (('default', 'odd'), ('si', 'seeded')):
